@@ -41,31 +41,38 @@ TASK_METRICS = ["tp", "lat", "svc", "proc"]
 RESULT_KEY = {"tp": "throughput", "lat": "latency", "svc": "service_time", "proc": "processing_time"}
 PLIST = [0, 50, 90, 99, 99.9, 99.99, 100]
 SCALES = [1, 1.0, 0.5, 0.001, 1000.0, 0.1]
-MAXDEN = 10000
+MAXDEN = 20000  # every exact result of the inputs used has a denominator <= 12000 (mean / error rate: record count; percentiles: 10^4)
 TOL = 1e-9
 NONE = {"n": 0, "d": 0}
+BAD = {"n": 0, "d": -1}  # a value that equals nothing
 RACE_ID = "c08-race"
 OTHER_RACE_ID = "c08-other"
 NOAP = ["", "", 0, 0, 0, 0]
 
 
-def op_type(task, own=True):
-    return ("type-of-" + task) if own else "dependent-op"
+FOREIGN_OP = "dependent-op"  # operation type of a dependent timing (composite operation): not the task's own type
+
+
+def op_types(sched, rnd=None):
+    """Operation type of every task. Tasks sharing one type is the dangerous case (a dropped task filter shows)."""
+    if rnd is None or rnd.random() < 0.6:
+        return {name: "shared-op" for name, _ in sched}
+    return {name: "type-of-" + name for name, _ in sched}
 
 
 # ---------------------------------------------------------------------------------------------------
 # numbers: implementation floats -> small rationals for TLC
 # ---------------------------------------------------------------------------------------------------
 def rat(x, u=1):
-    """A number returned by the implementation (fed with values v*u) as the rational n/d of lowest terms, d <= 10^4,
+    """A number returned by the implementation (fed with values v*u) as the rational n/d of lowest terms, d <= 2*10^4,
     that it agrees with to 1e-9 (relative to max(1, |x|)); d < 0 marks 'no such rational'; None -> 0/0."""
     if x is None:
         return dict(NONE)
     if isinstance(x, bool) or not isinstance(x, (int, float)) or (isinstance(x, float) and not math.isfinite(x)):
-        return {"n": 0, "d": -1}
+        return dict(BAD)
     y = Fraction(x) / Fraction(u)
-    if abs(y) > 200000:
-        return {"n": 200000 if y > 0 else -200000, "d": -1}
+    if abs(y) > 100000:  # keeps numerators below 2^31
+        return {"n": 100000 if y > 0 else -100000, "d": -1}
     f = y.limit_denominator(MAXDEN)
     if abs(y - f) <= Fraction(TOL) * max(1, abs(f)):
         return {"n": f.numerator, "d": f.denominator}
@@ -129,13 +136,14 @@ class Impl:
         t, ch = self.track_for((("t1", True),))
         metrics.FileRaceStore(other_cfg).store_race(self.new_race(t, ch, race_id=OTHER_RACE_ID, ts=datetime.datetime(2019, 1, 1)))
 
-    def track_for(self, sched):
-        key = tuple((str(n), bool(r)) for n, r in sched)
+    def track_for(self, sched, ot=None):
+        ot = ot or op_types(sched)
+        key = tuple((str(n), bool(r), ot[n]) for n, r in sched)
         if key not in self._tracks:
             track = self.track
             tasks = []
-            for n, (name, report) in enumerate(key):
-                op = track.Operation(name="op-" + name, operation_type=op_type(name), params={} if report else {"include-in-reporting": False})
+            for n, (name, report, typ) in enumerate(key):
+                op = track.Operation(name="op-" + name, operation_type=typ, params={} if report else {"include-in-reporting": False})
                 task = track.Task(name=name, operation=op)
                 # alternate plain tasks and parallel elements: the calculator walks both
                 tasks.append(task if n % 2 == 0 else track.Parallel([task]))
@@ -160,7 +168,7 @@ class Impl:
             plugin_params={},
         )
 
-    def load_store(self, S, u, rnd, normal_only=False):
+    def load_store(self, S, u, ot, rnd, normal_only=False):
         metrics = self.metrics
         store = metrics.metrics_store(self.cfg, read_only=False, track="verif-track", challenge="verif-challenge", car=["defaults"])
         recs = [tuple(r) for r in S["recs"]]
@@ -185,13 +193,35 @@ class Impl:
                     unit=UNIT[m],
                     task=t,
                     operation="op-" + t,
-                    operation_type=op_type(t, own),
+                    operation_type=ot.get(t, "shared-op") if own else FOREIGN_OP,
                     sample_type=st,
                     absolute_time=1000 + idx,
                     relative_time=rt,
                     meta_data={"success": bool(ok)} if m != "tp" else None,
                 )
         return store
+
+    def add_telemetry(self, store, k):
+        """Every other system metric GlobalStatsCalculator gathers (not described by the model): they take part in the
+        == comparison of original and reloaded results only. k varies the values (0 included)."""
+        cluster = self.metrics.MetaInfoScope.cluster
+        for n, name in enumerate(("indexing_throttle_time", "merges_total_time", "refresh_total_time", "flush_total_time", "merges_total_throttled_time")):
+            store.put_doc({"name": name, "value": (n + k) % 3, "unit": "ms", "per-shard": [(n + k) % 3, 1.5, n]}, level=cluster, absolute_time=1, relative_time=0)
+        sums = ["merges_total_count", "refresh_total_count", "flush_total_count", "dataset_size_in_bytes", "store_size_in_bytes", "translog_size_in_bytes"]
+        sums += ["node_total_%s_gc_%s" % (c, w) for c in ("old_gen", "zgc_cycles", "zgc_pauses") for w in ("time", "count")] + ["node_total_young_gen_gc_count"]
+        sums += ["ingest_pipeline_cluster_%s" % w for w in ("count", "time", "failed")]
+        for n, name in enumerate(sums):
+            store.put_value_cluster_level(name, (n * 7 + k) % 5, unit="x", absolute_time=1, relative_time=0)
+            if n % 2:
+                store.put_value_cluster_level(name, 2.25, unit="x", absolute_time=1, relative_time=0)
+        for n, name in enumerate(("doc_values", "terms", "norms", "points", "stored_fields")):
+            for v in range(n % 3 + 1):
+                store.put_value_cluster_level("segments_%s_memory_in_bytes" % name, (v + k) % 4, unit="byte", absolute_time=1, relative_time=0)
+        store.put_doc({"name": "ml_processing_time", "job": "job-%d" % k, "min": 0, "mean": 2.5, "median": 2, "max": 4 + k, "unit": "ms"}, level=cluster, absolute_time=1, relative_time=0)
+        for n, name in enumerate(("processing_time", "index_time", "search_time", "throughput")):
+            store.put_value_cluster_level("total_transform_" + name, (n + k) % 3 + 0.5, unit="ms", meta_data={"transform_id": "tr-%d" % n}, absolute_time=1, relative_time=0)
+        for n, name in enumerate(("total", "inverted_index", "stored_fields", "doc_values", "points", "norms", "term_vectors")):
+            store.put_value_cluster_level("disk_usage_" + name, (n + k) % 4, unit="byte", meta_data={"index": "idx", "field": "f%d" % n}, absolute_time=1, relative_time=0)
 
     # -- projections of what the implementation returned onto the result structure of Stats.tla
     def project(self, gs, sched, u):
@@ -224,14 +254,14 @@ class Impl:
         g = {k: rat(getattr(gs, attr)) for k, attr in GATTR.items()}
         return {"ops": ops, "g": g}
 
-    def direct(self, store, sched, u):
+    def direct(self, store, sched, u, ot):
         normal = self.metrics.SampleType.Normal
         out = []
         for name, _ in sched:
             row = []
             for m in TASK_METRICS:
-                pct = store.get_percentiles(REAL_NAME[m], task=name, operation_type=op_type(name), sample_type=normal, percentiles=list(PLIST))
-                st = store.get_stats(REAL_NAME[m], task=name, operation_type=op_type(name), sample_type=normal)
+                pct = store.get_percentiles(REAL_NAME[m], task=name, operation_type=ot[name], sample_type=normal, percentiles=list(PLIST))
+                st = store.get_stats(REAL_NAME[m], task=name, operation_type=ot[name], sample_type=normal)
                 pairs = sorted((_key_p100(k), rat(v, u)) for k, v in (pct or {}).items())
                 d = {"k": [p for p, _ in pairs], "v": [v for _, v in pairs]}
                 if st:
@@ -270,19 +300,30 @@ class Impl:
     def run_store(self, item, rnd):
         """Executes one store item on the real code and fills in the observation."""
         S, sched, u = item["S"], item["sched"], item["u"]
-        t, ch = self.track_for(sched)
-        store = self.load_store(S, u, rnd)
+        ot = item.setdefault("ot", op_types(sched))
+        t, ch = self.track_for(sched, ot)
+        store = self.load_store(S, u, ot, rnd)
+        if item.get("tele") is not None:
+            self.add_telemetry(store, item["tele"])
         race = self.new_race(t, ch)
-        res = self.metrics.calculate_results(store, race)
-        item["R"] = self.project(res, sched, u)
-        item["D"] = self.direct(store, sched, u)
+        try:
+            res = self.metrics.calculate_results(store, race)
+            item["R"] = self.project(res, sched, u)
+            item["D"] = self.direct(store, sched, u, ot)
+        except Exception as ex:  # pylint: disable=broad-except
+            # the implementation raises on a valid store: there are no results at all; recorded as results that equal nothing
+            item["crash"] = "%s: %s" % (type(ex).__name__, ex)
+            item["R"] = item["RN"] = item["RL"] = item["RS"] = _crashed_results(sched)
+            item["D"] = item["DN"] = [[{"k": [], "v": [], "n": -1, "min": dict(BAD), "max": dict(BAD), "mean": dict(BAD)} for _ in TASK_METRICS] for _ in sched]
+            item["diff"] = []
+            return item
         race.add_results(res)
         item["RL"], item["RS"], item["diff"] = self.persist_and_reload(race, res, sched, u)
         if any(not r[3] for r in S["recs"]):
-            store_n = self.load_store(S, u, rnd, normal_only=True)
+            store_n = self.load_store(S, u, ot, rnd, normal_only=True)
             res_n = self.metrics.calculate_results(store_n, self.new_race(t, ch))
             item["RN"] = self.project(res_n, sched, u)
-            item["DN"] = self.direct(store_n, sched, u)
+            item["DN"] = self.direct(store_n, sched, u, ot)
         else:
             # no warm-up record: the normal-only store is the store itself (another insertion order adds nothing here)
             item["RN"], item["DN"] = item["R"], item["D"]
@@ -321,6 +362,12 @@ class Impl:
         return item
 
 
+def _crashed_results(sched):
+    tab = {"k": [5000, 10000], "v": [dict(BAD), dict(BAD)], "mean": dict(BAD), "unit": "none", "x": 0}
+    op = {"p": True, "tp": {"min": dict(BAD), "mean": dict(BAD), "med": dict(BAD), "max": dict(BAD), "unit": "none"}, "lat": tab, "svc": tab, "proc": tab, "er": dict(BAD), "dur": dict(BAD)}
+    return {"ops": [op for _ in sched], "g": {k: dict(BAD) for k in GATTR}}
+
+
 def _unit(x):
     return "none" if x is None else str(x)
 
@@ -330,15 +377,16 @@ def _no_summary():
 
 
 def _empty_table():
-    return {"k": [], "v": [], "mean": dict(NONE), "unit": "none"}
+    return {"k": [], "v": [], "mean": dict(NONE), "unit": "none", "x": 0}
 
 
 def _table(tab, u):
     """{'50_0': x, '100_0': y, 'mean': m, 'unit': 'ms'} -> keys (1/100 percent, ascending) and values; {} -> empty table."""
     if not tab:
         return _empty_table()
-    pairs = sorted((_key_p100(k), rat(v, u)) for k, v in tab.items() if k not in ("mean", "unit"))
-    return {"k": [p for p, _ in pairs], "v": [v for _, v in pairs], "mean": rat(tab.get("mean"), u), "unit": _unit(tab.get("unit"))}
+    pairs = sorted((_key_p100(k), rat(v, u)) for k, v in tab.items() if k not in ("mean", "unit") and _key_p100(k) >= 0)
+    extra = sum(1 for k in tab if k not in ("mean", "unit") and _key_p100(k) < 0)  # additional entries are no percentiles (L2 only)
+    return {"k": [p for p, _ in pairs], "v": [v for _, v in pairs], "mean": rat(tab.get("mean"), u), "unit": _unit(tab.get("unit")), "x": extra}
 
 
 def _real_table(tab):
@@ -461,6 +509,7 @@ def _sig(item, clauses):
                 zero = True
         # the throughput summary is all None although normal samples exist whose mean or median is 0
         sig["zero_throughput_reported_as_none"] = zero
+        sig["crashed"] = bool(item.get("crash"))
     return sig
 
 
@@ -470,19 +519,22 @@ def _short(item):
     S = item["S"]
     recs = S["recs"] if len(S["recs"]) <= 12 else S["recs"][:12] + ["..."]
     tp = [o["tp"] for o in item["R"]["ops"]][:1]
+    if item.get("crash"):
+        tp = "implementation raised " + item["crash"]
     return "sched=%s ap=%s unit-scale=%r recs=%s -> throughput[0]=%s" % (item["sched"], S["ap"], item["u"], recs, tp)
 
 
 def _validate(out, items, name):
     index = {it["id"]: it for it in items}
-    payload = [{k: v for k, v in it.items() if k != "u"} for it in items]
+    payload = [{k: v for k, v in it.items() if k not in ("u", "crash", "ot", "tele")} for it in items]
     verdicts = tracecheck.validate("Stats", "TraceStats", "TraceStats.cfg", payload, name=name, chunk=4000, timeout=1500)
     out.traces_validated += verdicts.accepted(len(items))
     for tid, fails in verdicts.l1.items():
         it = index[tid]
         clauses = sorted({c for _, cl in fails for c in cl})
-        case = {k: it[k] for k in ("kind", "sched", "S", "u", "doc") if k in it}
+        case = {k: it[k] for k in ("kind", "sched", "S", "u", "ot", "tele", "doc") if k in it}
         out.violations.append(Violation(",".join(clauses), case, signature=_sig(it, clauses), detail=_short(it)))
+    out.violations.sort(key=lambda v: (len(v.case.get("S", {}).get("recs", [])) + v.case.get("S", {}).get("ap", NOAP)[2], repr(v.case)))
     for tid in verdicts.l2:
         out.drift.append("case %s: results differ from the transcription of esrally.metrics (%s)" % (tid, _short(index[tid])[:300]))
     return verdicts
@@ -497,7 +549,7 @@ def run(ctx, out):
         "stores with up to 3 tasks, values up to 10^4 and bags up to 260 / progressions up to 12000 records (C2S only)."
     )
     out.assumptions = [
-        "a float returned by the implementation is identified with the rational of denominator <= 10^4 it agrees with to 1e-9 "
+        "a float returned by the implementation is identified with the rational of denominator <= 2*10^4 it agrees with to 1e-9 "
         "(relative to max(1,|x|)); all exact results of the inputs used have such a denominator; a float that agrees with none is 'equal to nothing'",
         "inputs are integers v fed as v*u for a unit scale u in {1, 1.0, 0.5, 0.001, 1000.0, 0.1}; results are divided by u again "
         "(percentiles, mean, min, max are homogeneous); arbitrary 64-bit floats as inputs are not covered",
@@ -540,6 +592,8 @@ def run(ctx, out):
         if inp["kind"] == "store":
             S = {"recs": [list(r) for r in inp["S"]["recs"]], "ap": list(inp["S"]["ap"])}
             it = {"id": "s%d" % n, "kind": "store", "sched": sched2, "S": S, "u": rnd.choice(SCALES)}
+            if n % 4 == 0:
+                it["tele"] = n % 3
             impl.run_store(it, rnd)
             kinds["ap" if S["ap"][2] > 0 else "store"] += 1
             out.add_case(("store", sched2, sorted(S["recs"], key=repr), S["ap"]), nontrivial=any(_n_normal(S, m, "t1") for m in TASK_METRICS))
@@ -561,6 +615,9 @@ def run(ctx, out):
         it = random_store(random.Random(ctx.seed * 100003 + n), big=(n % 10 == 0))
         it["id"] = "r%d" % n
         it["u"] = rnd.choice(SCALES)
+        it["ot"] = op_types(it["sched"], rnd)
+        if n % 3 == 0:
+            it["tele"] = n % 5
         impl.run_store(it, rnd)
         rnd_items.append(it)
         out.add_case(("store", it["sched"], sorted(it["S"]["recs"], key=repr), it["S"]["ap"]), nontrivial=any(_n_normal(it["S"], m, t) for m in TASK_METRICS for t, _ in it["sched"]))
